@@ -664,22 +664,38 @@ Fixpoint simplify_unused_string_chain (e : expr) : expr * bool :=
   end.
 
 (* ---- TryToInsertOptionalChain (returns the rewritten expression) ------------------------------- *)
+(* IsOptionalChain *)
+Definition is_optional_chain (e : expr) : bool :=
+  match e with
+  | EDot _ _ oc _ _ => negb (oc =? 0)
+  | EIndex _ _ oc => negb (oc =? 0)
+  | ECall _ _ oc _ => negb (oc =? 0)
+  | _ => false
+  end.
+
+(* endsParenthesizedChain (fix 01a3711): in "(a.b?.c).d" the ".d" is not a link of
+   the chain inside the parentheses *)
+Definition ends_paren_chain (oc : Z) (t : expr) : bool := (oc =? 0) && is_optional_chain t.
+
 Fixpoint try_insert_optional_chain (test e : expr) {struct e} : option expr :=
   match e with
   | EDot t name oc c s =>
       if values_look_the_same test t then Some (EDot t name 1 c s)
+      else if ends_paren_chain oc t then None
       else match try_insert_optional_chain test t with
            | Some t' => Some (EDot t' name (if oc =? 0 then 2 else oc) c s)
            | None => None
            end
   | EIndex t i oc =>
       if values_look_the_same test t then Some (EIndex t i 1)
+      else if ends_paren_chain oc t then None
       else match try_insert_optional_chain test t with
            | Some t' => Some (EIndex t' i (if oc =? 0 then 2 else oc))
            | None => None
            end
   | ECall t args oc p =>
       if values_look_the_same test t then Some (ECall t args 1 p)
+      else if ends_paren_chain oc t then None
       else match try_insert_optional_chain test t with
            | Some t' => Some (ECall t' args (if oc =? 0 then 2 else oc) p)
            | None => None
@@ -831,6 +847,9 @@ Fixpoint su_fuel (fuel : nat) (unbound : Z -> bool) (noOptChain : bool) (e : exp
       end
   | ECall t args oc pure =>
       if pure then
+        (* fix a3926ba: the arguments of a call in an optional chain are not
+           evaluated when the chain short-circuits *)
+        if negb (oc =? 0) && negb (can_be_removed unbound e) then UExpr e else
         (fix go (l : list expr) (acc : ures) : ures :=
            match l with
            | [] => acc
@@ -900,6 +919,135 @@ Fixpoint all_look_same (x y : list expr) : bool :=
   | _, _ => true
   end.
 
+(* the rewrites of MangleIfExpr after "(a, b) ? c : d" and "!a ? b : c" have been
+   handled, one definition per rewrite, in the order of the Go function *)
+Definition mi_bools (test yes no : expr) : option expr :=
+  match as_bool yes, as_bool no with
+  | Some true, Some false => Some (not_ (not_ test))
+  | Some false, Some true => Some (not_ test)
+  | _, _ => None
+  end.
+
+Definition mi_idcase (test yes no : expr) : option expr :=
+  match as_id test with
+  | Some r =>
+      if (match as_id yes with Some r2 => r =? r2 | None => false end) then Some (join_left BLogOr test no)
+      else if (match as_id no with Some r3 => r =? r3 | None => false end) then Some (join_left BLogAnd test yes)
+      else None
+  | None => None
+  end.
+
+Definition mi_yesif (test yes no : expr) : option expr :=
+  match yes with
+  | EIf yt yy yn => if values_look_the_same yn no then Some (EIf (join_left BLogAnd test yt) yy no) else None
+  | _ => None
+  end.
+
+Definition mi_noif (test yes no : expr) : option expr :=
+  match no with
+  | EIf nt ny nn => if values_look_the_same yes ny then Some (EIf (join_left BLogOr test nt) yes nn) else None
+  | _ => None
+  end.
+
+Definition mi_nocomma (test yes no : expr) : option expr :=
+  match no with
+  | EBin BComma cl cr => if values_look_the_same yes cr then Some (EBin BComma (join_left BLogOr test cl) cr) else None
+  | _ => None
+  end.
+
+Definition mi_yescomma (test yes no : expr) : option expr :=
+  match yes with
+  | EBin BComma cl cr => if values_look_the_same cr no then Some (EBin BComma (join_left BLogAnd test cl) cr) else None
+  | _ => None
+  end.
+
+Definition mi_yesor (test yes no : expr) : option expr :=
+  match yes with
+  | EBin BLogOr bl br => if values_look_the_same br no then Some (EBin BLogOr (join_left BLogAnd test bl) br) else None
+  | _ => None
+  end.
+
+Definition mi_noand (test yes no : expr) : option expr :=
+  match no with
+  | EBin BLogAnd bl br => if values_look_the_same yes br then Some (EBin BLogAnd (join_left BLogOr test bl) br) else None
+  | _ => None
+  end.
+
+(* "a ? b(c, d) : b(e, d)" => "b(a ? c : e, d)"; [rec] is MangleIfExpr itself.
+   Some (Some r) = rewritten, Some None = not applicable, None = fuel *)
+Definition mi_calls (rec : expr -> expr -> expr -> option expr) (unbound : Z -> bool)
+           (test yes no : expr) : option (option expr) :=
+  match as_call yes, as_call no with
+  | Some (yt, y0, ytl, yoc, yp), Some (nt, n0, ntl, noc, np) =>
+      if (length ytl =? length ntl)%nat && (yoc =? noc) && Bool.eqb yp np && values_look_the_same yt nt
+         && can_be_removed unbound test && can_be_removed unbound yt && all_look_same ytl ntl then
+        match as_spread y0, as_spread n0 with
+        | Some ys, Some ns =>
+            match rec test ys ns with
+            | Some x => Some (Some (ECall yt (ESpread x :: ytl) yoc yp))
+            | None => None
+            end
+        | None, None =>
+            match rec test y0 n0 with
+            | Some x => Some (Some (ECall yt (x :: ytl) yoc yp))
+            | None => None
+            end
+        | _, _ => Some None
+        end
+      else Some None
+  | _, _ => Some None
+  end.
+
+(* "a != null ? a : b" => "a ?? b";  "a != null ? a.b : undefined" => "a?.b" *)
+Definition mi_nullish (unbound : Z -> bool) (noNullish noOptChain : bool) (test yes no : expr) : option expr :=
+  match test with
+  | EBin bop bl br =>
+      let sel := match bop with
+                 | BLooseEq => if is_null br then Some (bl, yes, no)       (* check, whenNull, whenNonNull *)
+                               else if is_null bl then Some (br, yes, no) else None
+                 | BLooseNe => if is_null br then Some (bl, no, yes)
+                               else if is_null bl then Some (br, no, yes) else None
+                 | _ => None
+                 end in
+      match sel with
+      | Some (check, whenNull, whenNonNull) =>
+          if can_be_removed unbound check then
+            if negb noNullish && values_look_the_same check whenNonNull then Some (join_left BNullish check whenNull)
+            else if negb noOptChain then
+              (if (match whenNull with EUndefined => true | _ => false end)
+               then try_insert_optional_chain check whenNonNull else None)
+            else None
+          else None
+      | None => None
+      end
+  | _ => None
+  end.
+
+Definition mi_simple (test yes no : expr) : option expr :=
+  orelse (mi_bools test yes no) (orelse (mi_idcase test yes no) (orelse (mi_yesif test yes no)
+  (orelse (mi_noif test yes no) (orelse (mi_nocomma test yes no) (orelse (mi_yescomma test yes no)
+  (orelse (mi_yesor test yes no) (mi_noand test yes no))))))).
+
+(* None = fuel exhausted *)
+Definition mangle_tail (rec : expr -> expr -> expr -> option expr)
+           (unbound : Z -> bool) (noNullish noOptChain : bool) (test yes no : expr) : option expr :=
+  if values_look_the_same yes no then
+    (if can_be_removed unbound test then Some yes else Some (EBin BComma test yes))
+  else
+  match mi_simple test yes no with
+  | Some x => Some x
+  | None =>
+      match mi_calls rec unbound test yes no with
+      | None => None
+      | Some (Some x) => Some x
+      | Some None =>
+          match mi_nullish unbound noNullish noOptChain test yes no with
+          | Some x => Some x
+          | None => Some (EIf test yes no)
+          end
+      end
+  end.
+
 (* None = fuel exhausted *)
 Fixpoint mangle_if_fuel (fuel : nat) (unbound : Z -> bool) (noNullish noOptChain : bool)
          (test yes no : expr) {struct fuel} : option expr :=
@@ -914,103 +1062,7 @@ Fixpoint mangle_if_fuel (fuel : nat) (unbound : Z -> bool) (noNullish noOptChain
       end
   | _ =>
   let '(test, yes, no) := match test with EUn UNot v _ => (v, no, yes) | _ => (test, yes, no) end in
-  if values_look_the_same yes no then
-    (if can_be_removed unbound test then Some yes else Some (EBin BComma test yes))
-  else
-  let bools := match as_bool yes, as_bool no with
-               | Some true, Some false => Some (not_ (not_ test))
-               | Some false, Some true => Some (not_ test)
-               | _, _ => None
-               end in
-  let idcase := match as_id test with
-                | Some r =>
-                    if (match as_id yes with Some r2 => r =? r2 | None => false end) then Some (join_left BLogOr test no)
-                    else if (match as_id no with Some r3 => r =? r3 | None => false end) then Some (join_left BLogAnd test yes)
-                    else None
-                | None => None
-                end in
-  let yesif := match yes with
-               | EIf yt yy yn => if values_look_the_same yn no then Some (EIf (join_left BLogAnd test yt) yy no) else None
-               | _ => None
-               end in
-  let noif := match no with
-              | EIf nt ny nn => if values_look_the_same yes ny then Some (EIf (join_left BLogOr test nt) yes nn) else None
-              | _ => None
-              end in
-  let nocomma := match no with
-                 | EBin BComma cl cr => if values_look_the_same yes cr then Some (EBin BComma (join_left BLogOr test cl) cr) else None
-                 | _ => None
-                 end in
-  let yescomma := match yes with
-                  | EBin BComma cl cr => if values_look_the_same cr no then Some (EBin BComma (join_left BLogAnd test cl) cr) else None
-                  | _ => None
-                  end in
-  let yesor := match yes with
-               | EBin BLogOr bl br => if values_look_the_same br no then Some (EBin BLogOr (join_left BLogAnd test bl) br) else None
-               | _ => None
-               end in
-  let noand := match no with
-               | EBin BLogAnd bl br => if values_look_the_same yes br then Some (EBin BLogAnd (join_left BLogOr test bl) br) else None
-               | _ => None
-               end in
-  (* Some (Some r) = rewritten, Some None = not applicable, None = fuel *)
-  let calls : option (option expr) :=
-      match as_call yes, as_call no with
-      | Some (yt, y0, ytl, yoc, yp), Some (nt, n0, ntl, noc, np) =>
-          if (length ytl =? length ntl)%nat && (yoc =? noc) && Bool.eqb yp np && values_look_the_same yt nt
-             && can_be_removed unbound test && can_be_removed unbound yt && all_look_same ytl ntl then
-            match as_spread y0, as_spread n0 with
-            | Some ys, Some ns =>
-                match mangle_if_fuel f unbound noNullish noOptChain test ys ns with
-                | Some x => Some (Some (ECall yt (ESpread x :: ytl) yoc yp))
-                | None => None
-                end
-            | None, None =>
-                match mangle_if_fuel f unbound noNullish noOptChain test y0 n0 with
-                | Some x => Some (Some (ECall yt (x :: ytl) yoc yp))
-                | None => None
-                end
-            | _, _ => Some None
-            end
-          else Some None
-      | _, _ => Some None
-      end in
-  let nullish :=
-      match test with
-      | EBin bop bl br =>
-          let sel := match bop with
-                     | BLooseEq => if is_null br then Some (bl, yes, no)       (* check, whenNull, whenNonNull *)
-                                   else if is_null bl then Some (br, yes, no) else None
-                     | BLooseNe => if is_null br then Some (bl, no, yes)
-                                   else if is_null bl then Some (br, no, yes) else None
-                     | _ => None
-                     end in
-          match sel with
-          | Some (check, whenNull, whenNonNull) =>
-              if can_be_removed unbound check then
-                if negb noNullish && values_look_the_same check whenNonNull then Some (join_left BNullish check whenNull)
-                else if negb noOptChain then
-                  (if (match whenNull with EUndefined => true | _ => false end)
-                   then try_insert_optional_chain check whenNonNull else None)
-                else None
-              else None
-          | None => None
-          end
-      | _ => None
-      end in
-  match orelse bools (orelse idcase (orelse yesif (orelse noif (orelse nocomma (orelse yescomma (orelse yesor noand)))))) with
-  | Some x => Some x
-  | None =>
-      match calls with
-      | None => None
-      | Some (Some x) => Some x
-      | Some None =>
-          match nullish with
-          | Some x => Some x
-          | None => Some (EIf test yes no)
-          end
-      end
-  end
+  mangle_tail (mangle_if_fuel f unbound noNullish noOptChain) unbound noNullish noOptChain test yes no
   end
   end.
 
